@@ -720,14 +720,15 @@ StepsFor(call, h, recv, res, full) ==
             \cup (IF full THEN {St(call, recv, recv, RA(k, "whole", "zz")) : k \in {"sum", "nonzero_counts"}} ELSE {})
     [] call = "probe" -> {St(call, recv, recv, [none |-> TRUE])}
     [] call = "eq" -> IF "b" \in DOMAIN h /\ recv # "b" THEN {St(call, recv, recv, [other |-> "b"])} ELSE {}
-    \* order: in which sequence the driver exports (h, j, t), queries (q) and compares (e) the two live tables
+    \* order: in which sequence the driver exports (h, j, t), queries (q; Q = per-cell queries first) and compares (e)
+    \* the two live tables
     [] call = "eq3" -> IF {"a", "b", "c"} \subseteq DOMAIN h /\ recv = "a"
                        THEN {St(call, recv, recv, [others |-> <<"b", "c">>, order |-> o]) :
                                o \in {<<"ab", "bc", "ac", "ba", "cb", "ca">>, <<"ca", "cb", "ba", "ac", "bc", "ab">>,
                                       <<"bc", "ac", "ab", "cb", "ca", "ba">>}}
                        ELSE {}
     [] call = "eqx" -> IF "b" \in DOMAIN h /\ recv # "b"
-                       THEN {St(call, recv, recv, [other |-> "b", order |-> o]) : o \in (IF full THEN {"hjtqe", "jthqe", "thjqe", "qehjt", "eqtjh"} ELSE {"hjtqe", "qetjh"})}
+                       THEN {St(call, recv, recv, [other |-> "b", order |-> o]) : o \in (IF full THEN {"hjtqe", "jthqe", "thjqe", "qehjt", "eqtjh", "Qehjt", "tQhje"} ELSE {"hjtqe", "qetjh", "Qejht"})}
                        ELSE {}
     [] call = "add_metadata" ->
          UNION {
